@@ -98,11 +98,21 @@ DedentCols(t, d, u)  == LET T == TagIndent(t, d, u)
 InnerLines(u) == (u.lo + 2)..(u.lc - 2)
 
 \* regular nesting: the column bands of nested unwrapped elements are disjoint and ordered outside-in
+\* Overlapping bands leave the combined shift open in general (union or sum of the two amounts?).  One case is
+\* determined whatever the reading: both tags stand in the same column and no inner line of the inner block is
+\* indented deeper than the inner block's first inner line - every such line ends in the tags' column.
+SameColumnShallow(t, d, u, w) ==
+  LET T == TagIndent(t, d, w) IN
+  /\ TagIndent(t, d, u) = T
+  /\ \A k \in InnerLines(w) :
+        LET l == LineText(t, d.br, k) IN IsBlankLine(l) \/ IndentLen(l) <= FirstIndent(t, d, w)
+
 RegularNesting(t, d) ==
   \A u \in UnwrappedElems(d), w \in UnwrappedElems(d) :
      (u # w /\ u.os < w.os /\ w.ce < u.ce) =>
         (DedentCols(t, d, u) = {} \/ DedentCols(t, d, w) = {}
-         \/ \A a \in DedentCols(t, d, u), b2 \in DedentCols(t, d, w) : a < b2)
+         \/ (\A a \in DedentCols(t, d, u), b2 \in DedentCols(t, d, w) : a < b2)
+         \/ SameColumnShallow(t, d, u, w))
 
 RemoveCols(l, cols) ==
   LET I == IndentLen(l)
